@@ -201,6 +201,12 @@ func (propC03) Check(r *Run) []Violation {
 		lastWho := "initial"
 		for _, w := range writes {
 			if w.Name == e.Backend && (w.At < c.StartAt || (w.At == c.StartAt && w.Step <= c.StartStep)) {
+				if w.Who == "proxy" && routableStr(w.Status) && !routableStr(st) {
+					// the request path has no authority to put an endpoint back into rotation: a routable
+					// status written by it over a non-routable one does not change what the endpoint is
+					r.Sim.Probe("c03.proxy-wrote-routable-over-non-routable")
+					continue
+				}
 				st, lastWho = w.Status, w.Who
 			}
 		}
@@ -211,7 +217,8 @@ func (propC03) Check(r *Run) []Violation {
 		// made routable while the request was alive?
 		readmitted := false
 		for _, w := range writes {
-			if w.Name == e.Backend && w.At >= c.StartAt && w.At <= e.ArrivedAt && routableStr(w.Status) {
+			// "until a later check marks it routable again": only the health checker readmits
+			if w.Name == e.Backend && w.At >= c.StartAt && w.At <= e.ArrivedAt && routableStr(w.Status) && w.Who == "hc" {
 				readmitted = true
 			}
 		}
@@ -248,7 +255,7 @@ func (propC03) Check(r *Run) []Violation {
 			}
 			readmitted := false
 			for _, w := range writes {
-				if w.Name == x.Backend && w.At >= failAt && w.At <= y.ArrivedAt && routableStr(w.Status) {
+				if w.Name == x.Backend && w.At >= failAt && w.At <= y.ArrivedAt && routableStr(w.Status) && w.Who == "hc" {
 					readmitted = true
 				}
 			}
@@ -257,6 +264,13 @@ func (propC03) Check(r *Run) []Violation {
 					c1.OpID, x.Backend, failAt, c1.DoneAt, c2.OpID, c2.StartAt, y.Backend, y.ArrivedAt, r.Plan.Stack.Engine, r.Plan.Stack.Balancer)
 				break
 			}
+		}
+	}
+	// a failure mark that the repository refused or dropped leaves a failed endpoint in rotation
+	for _, w := range r.Stack.Rec.RepoLost {
+		if !routableStr(w.Asked) && routableStr(w.Status) {
+			add("C03/failure-mark-lost/by="+w.Who, "%s tried to mark %s %q at %s; the repository still holds %q (error: %q)", w.Who, w.Name, w.Asked, w.At, w.Status, w.Err)
+			break
 		}
 	}
 	// every Select made by the running stack returned a routable member of its candidate list
